@@ -69,8 +69,10 @@ def generate(seed, tier="quick"):
     if driver == "plugin":
         if rng.random() < 0.5 and "norepr" not in prof.special:
             prof.special.append("norepr")
-    else:
+    elif rng.random() < 0.7:
         prof.special = [s for s in prof.special if s != "norepr"]
+    elif "norepr" not in prof.special:
+        prof.special.append("norepr")
     if sub(seed, "flag0").random() < 0.15:
         prof.special.append("flag0")
     prog = W.gen_program(rng, prof, {"prev": ["none"], "n_sites": (1, 5), "n_tests": (1, 3)})
@@ -82,7 +84,7 @@ def generate(seed, tier="quick"):
         f = prog["files"][0]
         for k in range(erng.randint(1, 2)):
             sid = f"x{k}"
-            f["sites"][sid] = {"op": erng.choice(["eq", "eq", "in"]), "place": "direct", "arg": None, "prev": None}
+            f["sites"][sid] = {"op": erng.choice(["eq", "eq", "in"]), "place": erng.choice(["direct", "direct", "module"]), "arg": None, "prev": None}
             erng.choice(f["tests"])["events"].append({"t": "cmp", "eid": f"ex{k}", "site": sid, "vals": [c13.wrap(erng, c13.ext_value(erng))], "style": erng.choice(["assert", "rec"])})
     mrng = sub(seed, "mutation")
     if mrng.random() < 0.2:
